@@ -276,7 +276,12 @@ impl Walrus {
                     0
                 };
                 persisted_tail = Some((active_block.id, start_off));
-                if checkpoint {
+                // Only the first visit of a tail block records a provisional position (offset 0:
+                // everything sealed is consumed, nothing of this block yet). Once progress inside
+                // the block exists, its persistence follows the normal policy below - forcing a
+                // write here would either rewind the durable cursor (offset 0) or, in
+                // AtLeastOnce mode, persist on every read and reset the persist_every counter.
+                if checkpoint && tail_snapshot.0 != active_block.id {
                     if self.should_persist(&mut info, true) {
                         if let Ok(mut idx_guard) = self.read_offset_index.write() {
                             let _ = idx_guard.set(
